@@ -95,7 +95,15 @@ func vC07FlvTagsBytes(r *vRng) []byte {
 			payload = r.bytes(r.intn(64))
 		}
 		ts := uint32(r.next())
-		out = append(out, tt, byte(len(payload)>>16), byte(len(payload)>>8), byte(len(payload)),
+		declared := len(payload)
+		if r.chance(1, 6) {
+			// a tag whose declared size contradicts the bytes that follow
+			declared = r.pickInt(0, 1, len(payload)-1, len(payload)+1, len(payload)+4, 0xffffff, 0xfffffc)
+			if declared < 0 {
+				declared = 0
+			}
+		}
+		out = append(out, tt, byte(declared>>16), byte(declared>>8), byte(declared),
 			byte(ts>>16), byte(ts>>8), byte(ts), byte(ts>>24), 0, 0, 0)
 		out = append(out, payload...)
 		ps := len(payload) + 11
@@ -188,8 +196,8 @@ func TestVerifC07Flv(t *testing.T) {
 		}},
 	}
 	fams := []*vC07Fam{
-		{name: "flv-dense-tags", dec: "flv.demux", build: vC07FlvDense},
-		{name: "flv-one-big-tag", dec: "flv.demux", build: func(n int) []byte {
+		{name: "flv-dense-tags", dec: "flv.demux", build: vC07FlvDense, cost: "flv.demux"},
+		{name: "flv-one-big-tag", dec: "flv.demux", cost: "flv.demux", build: func(n int) []byte {
 			out := []byte{'F', 'L', 'V', 1, 5, 0, 0, 0, 9, 0, 0, 0, 0, 9, byte((n - 28) >> 16), byte((n - 28) >> 8), byte(n - 28), 0, 0, 0, 0, 0, 0, 0}
 			return append(out, make([]byte, n-24)...)
 		}},
